@@ -3,6 +3,7 @@
 package conntrack_test
 
 import (
+	"errors"
 	"bytes"
 	"fmt"
 	"io"
@@ -28,7 +29,7 @@ func TestMain(m *testing.M) {
 }
 
 type ctOp struct {
-	Kind string `json:"kind"` // write | readfrom | peer-write (the wrapped side reads it)
+	Kind string `json:"kind"` // write | readfrom | readfrom-err (the source fails after N bytes) | readfrom-tcp-rst (the source is a TCP connection that is reset after N bytes) | peer-write (the wrapped side reads it)
 	N    int    `json:"n"`
 }
 
@@ -45,10 +46,58 @@ func genConn(t *rapid.T) C13ConnCase {
 		Closers: rapid.IntRange(1, 8).Draw(t, "closers"), PeerFirst: rapid.Bool().Draw(t, "peerfirst")}
 	n := rapid.IntRange(0, 6).Draw(t, "nops")
 	for i := 0; i < n; i++ {
-		c.Ops = append(c.Ops, ctOp{Kind: rapid.SampledFrom([]string{"write", "readfrom", "peer-write"}).Draw(t, "kind"),
+		c.Ops = append(c.Ops, ctOp{Kind: rapid.SampledFrom([]string{"write", "readfrom", "peer-write", "readfrom-err", "readfrom-tcp-rst"}).Draw(t, "kind"),
 			N: rapid.SampledFrom([]int{0, 1, 100, 4096, 32768, 70000}).Draw(t, "n")})
 	}
 	return c
+}
+
+var errSource = errors.New("verif: source failed")
+
+// failingReader delivers data in pieces of at most 8 KiB and then fails.
+type failingReader struct {
+	data []byte
+	err  error
+}
+
+func (r *failingReader) Read(p []byte) (int, error) {
+	if len(r.data) == 0 {
+		return 0, r.err
+	}
+	n := copy(p, r.data[:min(len(r.data), 8<<10)])
+	r.data = r.data[n:]
+	return n, nil
+}
+
+// resetSource returns a TCP connection on which data arrives and which is then reset by its peer (the splice path of
+// TCP-to-TCP copies ends with ECONNRESET instead of EOF).
+func resetSource(data []byte) (*net.TCPConn, func(), error) {
+	ln, err := net.Listen("tcp", "127.0.0.1:0")
+	if err != nil {
+		return nil, nil, err
+	}
+	defer ln.Close()
+	acc := make(chan net.Conn, 1)
+	go func() {
+		c, _ := ln.Accept()
+		acc <- c
+	}()
+	src, err := net.Dial("tcp", ln.Addr().String())
+	if err != nil {
+		return nil, nil, err
+	}
+	w := <-acc
+	if w == nil {
+		src.Close()
+		return nil, nil, errors.New("accept failed")
+	}
+	go func() {
+		w.Write(data)
+		time.Sleep(20 * time.Millisecond) // let the data be read before the reset overtakes it
+		w.(*net.TCPConn).SetLinger(0)
+		w.Close()
+	}()
+	return src.(*net.TCPConn), func() { src.Close() }, nil
 }
 
 func runConn(c C13ConnCase) (fails []vstat.Failure) {
@@ -108,6 +157,33 @@ func runConn(c C13ConnCase) (fails []vstat.Failure) {
 			n, err := rf.ReadFrom(bytes.NewReader(bytes.Repeat([]byte{byte(i)}, op.N)))
 			if err != nil || n != int64(op.N) {
 				fails = append(fails, vstat.Failf("C13:conntrack:readfrom", "ReadFrom(%d) = %d, %v", op.N, n, err))
+			}
+			wantTx += uint64(n)
+		case "readfrom-err", "readfrom-tcp-rst":
+			// a relay that ends with an error has still moved the bytes it moved
+			rf, ok := conn.(io.ReaderFrom)
+			if !ok {
+				continue
+			}
+			var src io.Reader = &failingReader{data: bytes.Repeat([]byte{byte(i)}, op.N), err: errSource}
+			var cleanup func()
+			if op.Kind == "readfrom-tcp-rst" {
+				tsrc, stop, err := resetSource(bytes.Repeat([]byte{byte(i)}, op.N))
+				if err != nil {
+					continue
+				}
+				src, cleanup = tsrc, stop
+			}
+			n, err := rf.ReadFrom(src)
+			if cleanup != nil {
+				cleanup()
+			}
+			if op.Kind == "readfrom-err" && (!errors.Is(err, errSource) || n != int64(op.N)) {
+				fails = append(fails, vstat.Failf("C13:conntrack:readfrom", "ReadFrom(source failing after %d bytes) = %d, %v", op.N, n, err))
+			}
+			if n < 0 || n > int64(op.N) {
+				fails = append(fails, vstat.Failf("C13:conntrack:readfrom", "ReadFrom(source reset after %d bytes) = %d, %v", op.N, n, err))
+				n = 0
 			}
 			wantTx += uint64(n)
 		case "peer-write":
